@@ -32,6 +32,9 @@ def r1_r2_lowering(ctx):
             "inputs": {"input0": "src", "input1": ("gen", "1"), "input2": "src"}, "outputs": ["a", "b"]}
     paths = Interp(repo).explore(fi, args={"name": "n", "node": node})
     ctx.evals(len(paths))
+    if len(paths) == 1 and paths[0].exit[0] == "raise":
+        ctx.violation("C10.R1", fi.qual, loc(fi), "model node lowers", f"a well-formed node (payload tuple, 3 inputs, 2 outputs) cannot be lowered: {vkey(paths[0].exit[1])[:100]}")
+        return
     if len(paths) != 1 or paths[0].exit[0] != "return":
         ctx.undecided("C10.R1", loc(fi), f"node2task not deterministic on a model node: {[p.exit[0] for p in paths]} {paths[0].cond_text()[:200]}")
         return
@@ -116,7 +119,11 @@ def r3_binding(ctx):
     ctx.evals(len(paths))
     done = [p for p in paths if p.exit[0] == "return"]
     if len(calls) < 1 or not done:
-        ctx.undecided("C10.R3", loc(fi), f"model task is not invoked: exits {[p.exit[0] for p in paths]}")
+        if paths and all(p.exit[0] == "raise" for p in paths):
+            ctx.violation("C10.R3", fi.qual, loc(fi), "task with mixed static/upstream arguments runs",
+                          f"a task with static positionals 0 and 2, an upstream value at position 1 and a keyword edge cannot be run: {vkey(paths[0].exit[1])[:100]}")
+        else:
+            ctx.undecided("C10.R3", loc(fi), f"model task is not invoked: exits {[p.exit[0] for p in paths]}")
         return
     for args, kwargs in calls[:1]:
         a = [vkey(x) for x in args]
